@@ -374,3 +374,48 @@ def nest(prog, S, name="inner", rename_in=None, rename_out=None, inner_bound=Non
 def copy_node(n):
     import copy as _c
     return _c.deepcopy(n)
+
+
+def conc_template(depth, fan, width=2, map_at=None, async_leaves=True):
+    """Nested / mapped shape for the concurrency checks: `depth` nested graph levels, each with
+    `width` parallel leaves and a join; at level `map_at` the nested node maps over a list of `fan`
+    items.  Returns (prog, provided, lists)."""
+    def A(name, ins, outs):
+        return IR.func(name, ins, outs, is_async=async_leaves)
+
+    def level(d):
+        """program of nesting level d (1 = outermost nested graph); its input is `v` (and the list
+        `vs` when a deeper level maps over it), output `r{d}`"""
+        leaves = [A(f"L{d}_{i}", ["v"], [f"l{d}_{i}"]) for i in range(width)]
+        nodes = list(leaves)
+        join_in = [f"l{d}_{i}" for i in range(width)]
+        if d < depth:
+            sub = level(d + 1)
+            if map_at == d + 1:
+                gn = IR.graph_node(sub, name=f"G{d+1}", inputs=["vs"], inmap=[["vs", "v"]], outputs=[f"r{d+1}"], outmap=[[f"r{d+1}", f"r{d+1}"]],
+                                   map_over=["vs"], map_mode="zip", map_eh="raise")
+            else:
+                ins = ["v"] + (["vs"] if map_at is not None and map_at > d + 1 else [])
+                gn = IR.graph_node(sub, name=f"G{d+1}", inputs=ins, inmap=[[p, p] for p in ins], outputs=[f"r{d+1}"], outmap=[[f"r{d+1}", f"r{d+1}"]])
+            nodes.append(gn)
+            join_in.append(f"r{d+1}")
+        nodes.append(A(f"J{d}", join_in, [f"r{d}"]))
+        return IR.prog(f"G{d}", nodes, max_iter=1000, selected=[f"r{d}"])
+
+    lists, provided = [], [["v", "in.v"]]
+    top_nodes = [A(f"T{i}", ["v"], [f"t{i}"]) for i in range(width)]
+    if depth >= 1:
+        sub = level(1)
+        if map_at == 1:
+            top_nodes.append(IR.graph_node(sub, name="G1", inputs=["vs"], inmap=[["vs", "v"]], outputs=["r1"], outmap=[["r1", "r1"]],
+                                           map_over=["vs"], map_mode="zip", map_eh="raise"))
+        else:
+            ins = ["v"] + (["vs"] if map_at is not None and map_at > 1 else [])
+            top_nodes.append(IR.graph_node(sub, name="G1", inputs=ins, inmap=[[p, p] for p in ins], outputs=["r1"], outmap=[["r1", "r1"]]))
+    if map_at is not None:
+        items = [f"in.vs.{i}" for i in range(fan)]
+        text = "[" + ";".join(items) + "]"
+        lists.append([text, items])
+        provided.append(["vs", text])
+    top_nodes.append(A("Z", [f"t{i}" for i in range(width)] + (["r1"] if depth >= 1 else []), ["z"]))
+    return IR.prog("top", top_nodes, max_iter=50), provided, lists
